@@ -86,31 +86,73 @@ theorem known_alias_iff' {c : Ctx} {n m : String} (hn : n ∈ knownNames c) (hm 
     simpa using h2
 
 theorem validNames_iff {c : Ctx} {n m : String} (hn : n ∈ knownNames c) (hm : m ∈ knownNames c)
-    (hs : aliasScope c m = true) : m ∈ validNames c n ↔ sameReg c n m = true := by
+    (hr : isCanonRule c = false) : m ∈ validNames c n ↔ sameReg c n m = true := by
   have hall := known_valid_names c
   rw [List.all_eq_true] at hall
   have h1 := hall n hn
   rw [List.all_eq_true] at h1
   have h2 := h1 m hm
-  rw [hs] at h2
-  simp only [Bool.not_true, Bool.false_or, beq_iff_eq] at h2
+  rw [hr] at h2
+  simp only [Bool.false_or, beq_iff_eq] at h2
   rw [← h2]
   simp
 
+/-- for table names, `sameReg` is "same canonical name" -/
+theorem sameReg_iff_memo {c : Ctx} {n m : String} (hn : n ∈ knownNames c) (hm : m ∈ knownNames c) :
+    sameReg c n m = true ↔ memoName c m = memoName c n := by
+  obtain ⟨cell, r, f⟩ := known_facts hn
+  unfold sameReg
+  rw [f.getCell]
+  simp only [Option.isSome_some, Bool.true_and, beq_iff_eq]
+  rw [← f.getCell]
+  rw [← known_alias_iff' hn hm]
+  exact eq_comm
+
 /-- for table names, `register_is_valid` under `Some(S)` is "some element of S names the same
-    register" — when S stays inside the table and inside the symmetric alias scope -/
+    register (cell)", for every S of table names — aliases in both directions, in every context -/
 theorem isValid_some_sameReg {c : Ctx} {n : String} {S : List String} (hn : n ∈ knownNames c)
-    (hS : ∀ s ∈ S, s ∈ knownNames c) (hscope : ∀ s ∈ S, aliasScope c s = true) :
+    (hS : ∀ s ∈ S, s ∈ knownNames c) :
     isValid c n (.some S) = .ok (S.any (sameReg c n)) := by
-  rw [isValid_some_eq S (known_memoTotal hn)]
-  congr 1
-  rw [Bool.eq_iff_iff, List.any_eq_true, List.any_eq_true]
-  constructor
-  · rintro ⟨a, ha, hc⟩
-    have haS : a ∈ S := by simpa using hc
-    exact ⟨a, haS, (validNames_iff hn (hS a haS) (hscope a haS)).mp ha⟩
-  · rintro ⟨m, hmS, hsame⟩
-    exact ⟨m, (validNames_iff hn (hS m hmS) (hscope m hmS)).mpr hsame, by simpa using hmS⟩
+  cases hr : isCanonRule c with
+  | false =>
+    rw [isValid_some_eq S (known_memoTotal hn) hr]
+    congr 1
+    rw [Bool.eq_iff_iff, List.any_eq_true, List.any_eq_true]
+    constructor
+    · rintro ⟨a, ha, hc⟩
+      have haS : a ∈ S := by simpa using hc
+      exact ⟨a, haS, (validNames_iff hn (hS a haS) hr).mp ha⟩
+    · rintro ⟨m, hmS, hsame⟩
+      exact ⟨m, (validNames_iff hn (hS m hmS) hr).mpr hsame, by simpa using hmS⟩
+  | true =>
+    rw [isValid_sparcCanon S hr (memoTotal_all c n) (fun o _ => memoTotal_all c o)]
+    congr 1
+    obtain ⟨cell, r, f⟩ := known_facts hn
+    have hmn : memoName c n = some r := memoName_of_memoize f.memo
+    rw [hmn]
+    simp only []
+    rw [Bool.eq_iff_iff, Bool.or_eq_true, List.any_eq_true, List.any_eq_true]
+    constructor
+    · rintro (hc | ⟨o, ho, hmo⟩)
+      · have hnS : n ∈ S := by simpa using hc
+        exact ⟨n, hnS, (sameReg_iff_memo hn hn).mpr rfl⟩
+      · have : memoName c o = memoName c n := by rw [hmn]; simpa using hmo
+        exact ⟨o, ho, (sameReg_iff_memo hn (hS o ho)).mpr this⟩
+    · rintro ⟨m, hmS, hsame⟩
+      right
+      have := (sameReg_iff_memo hn (hS m hmS)).mp hsame
+      exact ⟨m, hmS, by rw [this, hmn]; simp⟩
+
+/-- `register_is_valid` never panics: any name, any validity -/
+theorem isValid_total (c : Ctx) (n : String) (v : Validity) : ∃ b, isValid c n v = .ok b := by
+  cases v with
+  | all =>
+    obtain ⟨r, hr⟩ := memoize_total c n
+    exact ⟨r.isSome, by simp only [isValid, hr]⟩
+  | some S =>
+    cases hr : isCanonRule c with
+    | false => exact ⟨_, isValid_some_eq S (memoTotal_all c n) hr⟩
+    | true => exact ⟨_, isValid_sparcCanon S hr (memoTotal_all c n) (fun o _ => memoTotal_all c o)⟩
 
 theorem isValid_all_known {c : Ctx} {n : String} (hn : n ∈ knownNames c) :
     isValid c n .all = .ok true := by
